@@ -61,6 +61,7 @@ theorem err_D5self : compile 30 [] progD5self = .err := Res.eq_err_of_isErr (by 
 theorem err_D7 : compile 30 [] progD7 = .err := Res.eq_err_of_isErr (by decide +kernel)
 theorem err_D8 : compile 30 [] progD8 = .err := Res.eq_err_of_isErr (by decide +kernel)
 theorem err_D9 : compile 30 [] progD9 = .err := Res.eq_err_of_isErr (by decide +kernel)
+theorem err_D95 : compile 30 [] progD95 = .err := Res.eq_err_of_isErr (by decide +kernel)
 theorem err_D9enum : compile 30 [] progD9enum = .err := Res.eq_err_of_isErr (by decide +kernel)
 theorem err_D17 : compile 30 [] progD17 = .err := Res.eq_err_of_isErr (by decide +kernel)
 
